@@ -24,6 +24,9 @@ META = {
         "code between blocking operations terminates: after the pool context is cancelled the runnables' own code performs at most F further actions "
         "(parameter F of init; theorems hold for every F); user callbacks return",
         "unbuffered channels between runnables are over-approximated (an operation with a non-cancellation alternative may complete at any time)",
+        "which answers are HTTP failures is what the code does today: a playlist request accepts only 200, an init / segment / part request accepts "
+        "200 and 206 (ranged requests); every other status (2xx and 3xx included, with or without a body) must surface as 'bad status code: N' "
+        "(harness: statusAccepted); redirects are not followed by the stub transport",
         "mutex critical sections contain no blocking operation (checked on the table: locks_ok) and are therefore part of the terminating code",
     ],
 }
